@@ -15,7 +15,13 @@ use avra_lib::verif::{self, Event};
 use serde_json::{json, Value};
 use std::collections::HashSet;
 
-const GARBAGE: [&str; 22] = [
+const GARBAGE: [&str; 28] = [
+    ".exit",
+    "#exit",
+    "out_lbl: .exit",
+    ".exit ; the source does not end here: this line is not assembled",
+    ".org 0x1f00",
+    ".eseg",
     "bla bla bla",
     "ldi r16,",
     "?!$%&",
@@ -79,9 +85,14 @@ impl<'a> G<'a> {
                     E::bin(Bin::Eq, E::Sym(n), E::Lit(v + 1, 0))
                 }
             }
-            4 => {
+            4 if self.rng.chance(1, 2) => {
                 let inner = E::Lit(if truth { 0 } else { 3 }, 0);
                 E::un(crate::refmodel::expr::Un::Not, inner)
+            }
+            4 => {
+                // character literals that mean something elsewhere on a line: label colon, comment opener, quote
+                let c = *self.rng.pick(&[b':', b';', b'/', b'"', b'#', b'.', b',', b'@']) as i64;
+                E::bin(Bin::Eq, E::Lit(c, 5), if truth { E::Lit(c, 0) } else { E::Lit(if c == 58 { 59 } else { 58 }, 5) })
             }
             _ => {
                 let a = self.rng.range(1, 9);
@@ -251,6 +262,36 @@ fn blank_lines(text: &str, blank: &HashSet<usize>) -> String {
     s
 }
 
+const COND_LINE_COMMENTS: [&str; 10] = [
+    " ; note: fallback",
+    " // x: y",
+    " /* a:b */",
+    " ; .endif",
+    " ; .else",
+    " // .if 0",
+    " ; \"quoted: text",
+    " ;:",
+    " ; ends with a backslash \\",
+    " /* closes */ ; twice: commented",
+];
+
+/// every third conditional directive line gets a trailing comment (chosen by the line text, so a replay
+/// decorates the same way)
+fn decorate_conditional_lines(src: &str) -> String {
+    let mut out = String::with_capacity(src.len() + 64);
+    for (i, line) in src.lines().enumerate() {
+        out.push_str(line);
+        let t = line.trim_start().to_lowercase();
+        let is_cond = [".if", ".elif", ".else", ".endif", "#if", "#elif", "#else", "#endif"].iter().any(|k| t.starts_with(k));
+        let h = fw::hash_str(line).wrapping_add(i as u64 * 7);
+        if is_cond && !line.contains('"') && !line.contains("/*") && h % 3 == 0 {
+            out.push_str(COND_LINE_COMMENTS[(h / 3 % COND_LINE_COMMENTS.len() as u64) as usize]);
+        }
+        out.push('\n');
+    }
+    out
+}
+
 pub fn check(ctx: &Ctx, nodes: &[Node], shape: &str) {
     let src = ir::print_canonical(nodes);
     let reference = layout::assemble(&layout::single(nodes.to_vec()));
@@ -270,6 +311,9 @@ pub fn check(ctx: &Ctx, nodes: &[Node], shape: &str) {
     let mut blank: HashSet<usize> = r.unselected.iter().map(|(_, l)| *l).collect();
     blank.extend(r.cond_lines.iter().map(|(_, l)| *l));
     let deleted = blank_lines(&src, &blank);
+    // trailing comments on the conditional directive lines themselves (selected, skipped or nested in skipped
+    // text alike): a comment never changes what a line means, whatever it holds
+    let src = decorate_conditional_lines(&src);
     fw::hook_enable(verif::LINE);
     let _ = verif::take();
     let full = fw::build_str(&src);
